@@ -372,3 +372,17 @@ package inmem
 //@   ensures [updated-inside-selection-passes] old(event.Type) == 1 && selected(old(event.Old)) && selected(old(event.Resource)) ==> result && event.Type == 1 && event.Old == old(event.Old)
 //@   ensures [updated-outside-selection-dropped] old(event.Type) == 1 && !selected(old(event.Old)) && !selected(old(event.Resource)) ==> !result
 //@   ensures [resource-kept] event.Resource == old(event.Resource)
+
+// C10: the in-memory state is marked loaded only after the backing store has been read completely
+// and without error; a failed load is reported to the caller and retried by the next operation.
+//@ func (*State).loadStore
+//@   props C10
+//@   requires [state] st != nil && ctx != nil
+//@   ghostlocal storeRead bool
+//@   ghostlocal storeReadOK bool
+//@   at Load #3
+//@     ghost_result storeRead = true
+//@     ghost_result storeReadOK = (result == nil)
+//@   at Store #1
+//@     assert [marked-loaded-only-after-a-complete-load] storeRead && storeReadOK
+//@   ensures [failed-load-is-reported] storeRead && !storeReadOK ==> result != nil
